@@ -267,10 +267,21 @@ class H2Protocol:
                 await self.has_data.set()
                 await self.stream_buffers[event.stream_id].push(event.data)
             elif isinstance(event, (EndBody, EndData)):
-                self.stream_buffers[event.stream_id].set_complete()
-                self.priority.unblock(event.stream_id)
-                await self.has_data.set()
-                await self.stream_buffers[event.stream_id].drain()
+                stream_buffer = self.stream_buffers[event.stream_id]
+                stream_buffer.set_complete()
+                if stream_buffer.complete:
+                    # Nothing is left for the send task to send, so
+                    # there is nothing to drain (wait for); end the
+                    # stream now, before anything that follows
+                    # (e.g. the connection closing).
+                    del self.stream_buffers[event.stream_id]
+                    self.priority.remove_stream(event.stream_id)
+                    self.connection.end_stream(event.stream_id)
+                    await self._flush()
+                else:
+                    self.priority.unblock(event.stream_id)
+                    await self.has_data.set()
+                    await stream_buffer.drain()
             elif isinstance(event, Trailers):
                 # Trailers end the stream, so all the body data must be sent first
                 self.priority.unblock(event.stream_id)
